@@ -180,19 +180,19 @@ pub fn deadlock_lines(out: &RunOut) -> Vec<String> {
     v
 }
 
-/// signature of a deadlock that does not depend on lock numbers: sorted (wanted site, held sites)
+/// signature of a deadlock that does not depend on lock numbers: per blocked thread the wanted (mode, class, site) and the held ones
 pub fn deadlock_signature(out: &RunOut) -> String {
     let mut parts = Vec::new();
     if let Some(bl) = &out.outcome.deadlock {
         for b in bl {
-            let mut holds: Vec<String> = b.holds.iter().map(|h| format!("{}{}:{}", md(h.2), short(h.3), h.4)).collect();
+            let mut holds: Vec<String> = b.holds.iter().map(|h| format!("{}:{:?}@{}:{}", md(h.2), h.1, short(h.3), h.4)).collect();
             holds.sort();
             holds.dedup();
-            parts.push(format!("{}{}:{}<-{}", md(b.wants.mode), short(b.wants.file), b.wants.line, holds.join("+")));
+            parts.push(format!("{}:{:?}@{}:{}<-{}", md(b.wants.mode), b.wants.class, short(b.wants.file), b.wants.line, holds.join("+")));
         }
     }
     parts.sort();
-    parts.join(" | ")
+    parts.join("|")
 }
 
 fn print_run(out: &RunOut, verbose: bool) {
@@ -260,7 +260,7 @@ fn outcome_key(results: &[String], state: &str) -> String {
 /// a result where an operation gave up with the documented lock error; such a run must equal a serial run of the OTHER operations
 /// with this one having no effect (checked by adding the serial outcomes of the sub-sets)
 fn is_locked_err(r: &str) -> bool {
-    r == "err:ParentElementLocked"
+    r == "err:ParentElementLocked" || r.contains("(LOCKED)")
 }
 
 pub fn serial_outcomes(shape: &'static str, ops: &[Op]) -> BTreeSet<String> {
@@ -284,7 +284,7 @@ fn serial_outcomes_with_failures(shape: &'static str, ops: &[Op], failed: &[usiz
             results[i] = run_logged(&w, &ops[i]).result;
         }
         for &i in failed {
-            results[i] = "err:ParentElementLocked".to_string();
+            results[i] = "LOCKED".to_string();
         }
         set.insert(outcome_key(&results, &canonical_state(&w)));
     }
@@ -313,7 +313,11 @@ fn record(ex: &mut Explored, shape: &'static str, ops: &[Op], out: &RunOut, fail
         true
     } else if !failed.is_empty() {
         let set = fail_cache.entry(failed.clone()).or_insert_with(|| serial_outcomes_with_failures(shape, ops, &failed));
-        set.contains(&key)
+        let mut res = out.results.clone();
+        for &i in &failed {
+            res[i] = "LOCKED".to_string();
+        }
+        set.contains(&outcome_key(&res, &out.state))
     } else {
         false
     };
